@@ -1,10 +1,184 @@
 import Model.Common.Proto
+import Model.C14.Descsum
+import Model.C14.Descriptor
+import Model.C14.Scan
+import Generated.Descsum
+import Generated.Descriptor
 open Btc
 
-/-- line protocol of property C14: see harness/c14.py -/
+/-- line protocol of property C14: see harness/c14.py.
+    text = comma separated code points (`_` empty); byte strings = hex (`_` empty). -/
+def cps? (s : String) : Option (List Char) :=
+  if s == "_" then some [] else (s.splitOn ",").mapM fun t => t.toNat?.map Char.ofNat
+
+def cpsOut (l : List Char) : String :=
+  if l.isEmpty then "_" else ",".intercalate (l.map fun c => toString c.toNat)
+
+def natsOut (l : List Nat) : String :=
+  if l.isEmpty then "_" else ",".intercalate (l.map toString)
+
+def nats? (s : String) : Option (List Nat) :=
+  if s == "_" then some [] else (s.splitOn ",").mapM String.toNat?
+
+def bool? (s : String) : Option Bool :=
+  if s == "1" then some true else if s == "0" then some false else none
+
+/-- the key-atom oracle handed over by the harness (btclib's own verdicts on the atoms of the text):
+    `x:<text>:<public text>` extended key, `p:<sec hex>` a point on the curve, `w:<text>:<sec hex>`
+    a WIF, `a:<text>` an address; entries separated by `;`. -/
+structure Table where
+  x : List (List Char × List Char) := []
+  p : List Bytes := []
+  w : List (List Char × Bytes) := []
+  a : List (List Char) := []
+
+def Table.add (t : Table) (e : String) : Option Table :=
+  match e.splitOn ":" with
+  | ["x", k, v] => do let k ← cps? k; let v ← cps? v; pure { t with x := (k, v) :: t.x }
+  | ["p", h] => do let b ← fromHex? h; pure { t with p := b :: t.p }
+  | ["w", k, h] => do let k ← cps? k; let b ← fromHex? h; pure { t with w := (k, b) :: t.w }
+  | ["a", k] => do let k ← cps? k; pure { t with a := k :: t.a }
+  | _ => none
+
+def table? (s : String) : Option Table :=
+  if s == "_" then some {} else (s.splitOn ";").foldlM Table.add {}
+
+def Table.oracle (t : Table) : Desc.KeyOracle where
+  xkey k := t.x.lookup k
+  validPub b := t.p.contains b
+  wif k := t.w.lookup k
+  validAddr k := t.a.contains k
+
+open Desc in
+def renderKey (k : Key) : String :=
+  let o := match k.origin with
+    | none => "-"
+    | some o => toHex o.fp ++ "/" ++ natsOut o.path
+  let a := match k.atom with
+    | .pub sec x => s!"p:{toHex sec}:{if x then 1 else 0}"
+    | .xkey t => s!"x:{cpsOut t}"
+  let w := match k.wildcard with | none => "-" | some false => "0" | some true => "1"
+  let h := match k.hard with | .h => "h" | .apos => "a"
+  s!"K[o={o};a={a};p={natsOut k.path};w={w};h={h}]"
+
+open Desc in
+def renderKeys (ks : List Key) : String := "[" ++ " ".intercalate (ks.map renderKey) ++ "]"
+
+open Desc in
+def renderTree : Tree → String
+  | .pk k => s!"pk({renderKey k})"
+  | .multiA t ks s => s!"ma({t};{if s then 1 else 0};{renderKeys ks})"
+  | .branch l r => "{" ++ renderTree l ++ "," ++ renderTree r ++ "}"
+
+open Desc in
+def renderD : D → String
+  | .pk k => s!"pk({renderKey k})"
+  | .pkh k => s!"pkh({renderKey k})"
+  | .wpkh k => s!"wpkh({renderKey k})"
+  | .combo k => s!"combo({renderKey k})"
+  | .sh d => s!"sh({renderD d})"
+  | .wsh d => s!"wsh({renderD d})"
+  | .multi t ks s => s!"multi({t};{if s then 1 else 0};{renderKeys ks})"
+  | .tr k none => s!"tr({renderKey k};-)"
+  | .tr k (some t) => s!"tr({renderKey k};{renderTree t})"
+  | .rawtr k => s!"rawtr({renderKey k})"
+  | .addr a => s!"addr({cpsOut a})"
+  | .raw s => s!"raw({toHex s})"
+
+def pOut {α} (r : Desc.P α) (f : α → String) : String :=
+  match r with
+  | .ok v => "ok " ++ f v
+  | .error .value => "err value"
+  | .error .unsupported => "unsupported"
+
+def segsOut (l : List (List Char)) : String := ";".intercalate (l.map cpsOut)
+
+/-- rows `a,b;c;…` (one row per index, `-` an empty row), script ids are naturals. -/
+def rows? (s : String) : Option (List (List Nat)) :=
+  (s.splitOn ";").mapM fun r => if r == "-" then some [] else nats? r
+
 def handle : List String → String
-  -- one line per generated module this driver serves, e.g.
-  -- | "gen" :: "VarInt" :: fn :: args => (Gen.VarInt.dispatch fn args).getD "bad-op"
+  | "gen" :: "Descsum" :: fn :: args => (Gen.Descsum.dispatch fn args).getD "bad-op"
+  | "gen" :: "Descriptor" :: fn :: args => (Gen.Descriptor.dispatch fn args).getD "bad-op"
+  | ["polymod", vals] =>
+    match nats? vals with
+    | some v => s!"ok {Descsum.polymod v} {Descsum.Ref.descsumPolymod v}"
+    | none => "bad-op"
+  | ["expand", txt] =>
+    match cps? txt with
+    | some t =>
+      let a := match Descsum.expand t with | some e => "ok " ++ natsOut e | none => "err value"
+      let r := match Descsum.Ref.descsumExpand t with | some e => "ref " ++ natsOut e | none => "ref none"
+      s!"{a} | {r}"
+    | none => "bad-op"
+  | ["csum", txt] =>
+    match cps? txt with
+    | some t =>
+      let a := match Descsum.checksum t with | some c => "ok " ++ cpsOut c | none => "err value"
+      let r := match Descsum.Ref.descsumCreate t with | some c => "ref " ++ cpsOut c | none => "ref none"
+      s!"{a} | {r}"
+    | none => "bad-op"
+  | ["strip", txt] =>
+    match cps? txt with
+    | some t =>
+      let a := match Descsum.stripChecksum t with | .ok b => "ok " ++ cpsOut b | .error _ => "err value"
+      s!"{a} | ref {if Descsum.Ref.descsumCheck t then "True" else "False"}"
+    | none => "bad-op"
+  | ["add", txt] =>
+    match cps? txt with
+    | some t => match Descsum.addChecksum t with | .ok b => "ok " ++ cpsOut b | .error _ => "err value"
+    | none => "bad-op"
+  | ["split", txt] =>
+    match cps? txt with
+    | some t => pOut (Desc.splitArgs t) segsOut
+    | none => "bad-op"
+  | ["splitfn", txt] =>
+    match cps? txt with
+    | some t => pOut (Desc.splitFunction t) fun (n, a) => s!"{cpsOut n} {cpsOut a}"
+    | none => "bad-op"
+  | ["key", tbl, x, c, m, txt] =>
+    match table? tbl, bool? x, bool? c, bool? m, cps? txt with
+    | some tb, some x, some c, some m, some t =>
+      pOut (Desc.parseKey tb.oracle x c m t) fun k => s!"{renderKey k} | {cpsOut (Desc.strKey k)}"
+    | _, _, _, _, _ => "bad-op"
+  | ["parse", tbl, txt] =>
+    match table? tbl, cps? txt with
+    | some tb, some t => pOut (Desc.parse tb.oracle t) fun d => s!"{renderD d} | {cpsOut (Desc.strD d)}"
+    | _, _ => "bad-op"
+  | ["atindex", tbl, txt, idx] =>
+    match table? tbl, cps? txt, idx.toNat? with
+    | some tb, some t, some i =>
+      match Desc.parse tb.oracle t with
+      | .ok d =>
+        (match Desc.atIndex d i with
+         | some d' => s!"ok {cpsOut (Desc.strD d')} {if d.isRanged then 1 else 0}"
+         | none => "err value")
+      | .error .value => "err value"
+      | .error .unsupported => "unsupported"
+    | _, _, _ => "bad-op"
+  | ["scan.index", ranged, last, query, rows] =>
+    match bool? ranged, last.toNat?, query.toNat?, rows? rows with
+    | some rg, some last, some q, some rows =>
+      match Scan.indexOf (fun i => rows.getD i []) rg q last with
+      | some i => s!"ok {i}"
+      | none => "ok None"
+    | _, _, _, _ => "bad-op"
+  | ["scan.pos", last, query, branches] =>
+    match last.toNat?, query.toNat?, (branches.splitOn "|").mapM nats? with
+    | some last, some q, some bs =>
+      -- a branch is its position in the list; a missing entry is a script no query equals
+      match Scan.positionOf (fun (b : Nat) i => ((bs.getD b []).getD i 0)) q last (List.range bs.length) with
+      | some (b, i) => s!"ok {b} {i}"
+      | none => "ok None"
+    | _, _, _ => "bad-op"
+  | ["scan.dpos", last, query, flags, branches] =>
+    match last.toNat?, query.toNat?, (flags.splitOn ",").mapM bool?, (branches.splitOn "|").mapM rows? with
+    | some last, some q, some fl, some bs =>
+      match Scan.positionOfDesc (fun (b : Nat) i => ((bs.getD b []).getD i [])) (fun b => fl.getD b false) q last
+          (List.range bs.length) with
+      | some (b, i) => s!"ok {b} {i}"
+      | none => "ok None"
+    | _, _, _, _ => "bad-op"
   | _ => "bad-op"
 
 def main : IO Unit := runLoop handle
